@@ -1,10 +1,77 @@
 import VOPyVerif.Drv.Proto
-/-! Driver front end for property C04 (line protocol → executable model). -/
+import VOPyVerif.Model.Schedules
+/-! Driver front end for property C04 (confidence schedules and region construction).
+
+Numbers in: naturals for `round`, `m`, `K`; exact rationals `num/den` (from
+`float.as_integer_ratio()`, turned into the same `Float` by `Proto.ratToFloat`) for `noise_var`,
+`delta`, `conf_contraction`, `v_hat`, means, covariances, scales.  Floats out: the IEEE-754 bit
+pattern as a decimal natural (`Float.toBits`), `nan` for NaN — never a decimal rendering.
+
+* `paveba    <noise_var> <round> <m> <K> <delta> <c>`  → `Sched.pavebaRadius`   (PaVeBa.compute_radius)
+* `pavebagp  <round> <m> <K> <delta> <c>`              → `Sched.pavebaGpAlpha`  (PaVeBaGP.compute_alpha)
+* `partialgp <round> <K> <delta> <c>`                  → `Sched.partialGpAlpha` (PaVeBaPartialGP.compute_alpha)
+* `vogp      <round> <m> <K> <delta> <c>`              → `Sched.vogpBeta`       (VOGP.compute_beta)
+* `epal      <round> <m> <K> <delta> <c>`              → `Sched.epalBeta`       (EpsilonPAL.compute_beta)
+* `auer      <round> <m> <K> <delta> <c>`              → `Sched.auerBeta`       (Auer.compute_beta, original)
+* `aueremp   <round> <m> <K> <delta> <c> <v_hat>`      → `Sched.auerBetaEmp`    (Auer.compute_beta, empirical)
+* `rect <mean> <diag cov> <scale>` (three vectors of one length) → `lower;upper` bit vectors of
+  `Sched.rectUpdate` (RectangularConfidenceRegion.update)
+* `ell <mean> <cov> <scale>` → `center|sigma|alpha` of `Sched.ellUpdate`, exact rationals
+  (EllipsoidalConfidenceRegion.update)
+-/
 namespace VOPy.Drv.C04
-open VOPy VOPy.Proto
+open VOPy VOPy.Proto VOPy.Sched
+
+def fmtFloat (x : Float) : String := if x.isNaN then "nan" else toString x.toBits.toNat
+def fmtFloats (l : List Float) : String := fmtList "," fmtFloat l
+
+def pf (s : String) : Option Float := (parseRat s).map ratToFloat
+def pn (s : String) : Option Nat := s.toNat?
 
 def handle (args : List String) : String :=
   match args with
+  | ["paveba", nv, t, m, k, d, c] =>
+    match pf nv, pn t, pn m, pn k, pf d, pf c with
+    | some nv, some t, some m, some k, some d, some c => fmtFloat (pavebaRadius nv t m k d c)
+    | _, _, _, _, _, _ => bad
+  | ["pavebagp", t, m, k, d, c] =>
+    match pn t, pn m, pn k, pf d, pf c with
+    | some t, some m, some k, some d, some c => fmtFloat (pavebaGpAlpha t m k d c)
+    | _, _, _, _, _ => bad
+  | ["partialgp", t, k, d, c] =>
+    match pn t, pn k, pf d, pf c with
+    | some t, some k, some d, some c => fmtFloat (partialGpAlpha t k d c)
+    | _, _, _, _ => bad
+  | ["vogp", t, m, k, d, c] =>
+    match pn t, pn m, pn k, pf d, pf c with
+    | some t, some m, some k, some d, some c => fmtFloat (vogpBeta t m k d c)
+    | _, _, _, _, _ => bad
+  | ["epal", t, m, k, d, c] =>
+    match pn t, pn m, pn k, pf d, pf c with
+    | some t, some m, some k, some d, some c => fmtFloat (epalBeta t m k d c)
+    | _, _, _, _, _ => bad
+  | ["auer", t, m, k, d, c] =>
+    match pn t, pn m, pn k, pf d, pf c with
+    | some t, some m, some k, some d, some c => fmtFloat (auerBeta t m k d c)
+    | _, _, _, _, _ => bad
+  | ["aueremp", t, m, k, d, c, v] =>
+    match pn t, pn m, pn k, pf d, pf c, pf v with
+    | some t, some m, some k, some d, some c, some v => fmtFloat (auerBetaEmp t m k d c v)
+    | _, _, _, _, _, _ => bad
+  | ["rect", mu, cv, sc] =>
+    match parseVec mu, parseVec cv, parseVec sc with
+    | some mu, some cv, some sc =>
+      if mu.length = cv.length ∧ cv.length = sc.length then
+        let r := rectUpdate (mu.map ratToFloat) (cv.map ratToFloat) (sc.map ratToFloat)
+        fmtFloats r.1 ++ ";" ++ fmtFloats r.2
+      else bad
+    | _, _, _ => bad
+  | ["ell", mu, cv, sc] =>
+    match parseVec mu, parseMat cv, parseRat sc with
+    | some mu, some cv, some sc =>
+      let e := ellUpdate mu cv sc
+      fmtVec e.center ++ "|" ++ fmtMat e.sigma ++ "|" ++ fmtRat e.alpha
+    | _, _, _ => bad
   | _ => bad
 
 end VOPy.Drv.C04
